@@ -23,6 +23,11 @@ type pairSys struct {
 	ops     []fsx.Call // portable form
 	l, w    *side
 	lastKey string
+	// Linux-typed dump and current directory of the state the instances are in
+	// (taken after Reset and after every Step: nothing runs in between)
+	curDump   []string
+	curRootOK bool
+	curCwd    string
 }
 
 func (s *pairSys) NumOps() int           { return len(s.ops) }
@@ -49,8 +54,9 @@ func (s *pairSys) Reset() error {
 		}
 	}
 
-	ld, _ := s.l.dump()
-	s.lastKey = keyOf(ld, s.l.cwd())
+	s.curDump, s.curRootOK = s.l.dump()
+	s.curCwd = s.l.cwd()
+	s.lastKey = keyOf(s.curDump, s.curCwd)
 
 	return nil
 }
@@ -123,16 +129,24 @@ type detail struct {
 func (s *pairSys) Step(op int) bfs.StepResult {
 	c := s.ops[op]
 
-	before, rootOK := s.l.dump()
-	cwdBefore := s.l.cwd()
-	operands := operandClass(c, before, cwdBefore, rootOK)
+	before, rootOK, cwdBefore := s.curDump, s.curRootOK, s.curCwd
+	pc := plainCall(c) // classes and compared values do not depend on the spelling
+	operands := operandClass(pc, before, cwdBefore, rootOK)
+
+	// spelling of the operands on the Windows-typed side and whether the current
+	// directory is the volume root (what a path without volume is resolved from)
+	spelling := spellingOf(c)
+	if spelling != "" {
+		spelling += " cwd=" + map[bool]string{true: "root", false: "below-root"}[cwdBefore == "/" || cwdBefore == ""]
+	}
 
 	lc, lr := s.l.do(c)
 	wc, wr := s.w.do(c)
 
-	ld, _ := s.l.dump()
+	ld, lRootOK := s.l.dump()
 	wd, _ := s.w.dump()
 	lcwd, wcwd := s.l.cwd(), s.w.cwd()
+	s.curDump, s.curRootOK, s.curCwd = ld, lRootOK, lcwd
 
 	det := detail{
 		LinuxCall: lc.String(), LinuxRes: lr.String(), LinuxMsg: lr.Msg,
@@ -150,8 +164,12 @@ func (s *pairSys) Step(op int) bfs.StepResult {
 	add := func(kind, what string) {
 		b, _ := json.Marshal(det)
 		sig := map[string]string{
-			"fs": s.kind, "part": "pair", "call": c.Op, "variant": variantOf(c), "operands": operands,
+			"fs": s.kind, "part": "pair", "call": c.Op, "variant": variantOf(pc), "operands": operands,
 			"linux": lr.Kind, "windows": wr.Kind, "kind": kind, "what": what,
+		}
+
+		if spelling != "" {
+			sig["spelling"] = spelling
 		}
 
 		if cs := s.cfg.String(); cs != "" {
@@ -199,7 +217,7 @@ func (s *pairSys) Step(op int) bfs.StepResult {
 			if errClassReport && !classCompatible(c.Op, lr.Kind, wr.Kind, lr.Fam, wr.Fam) {
 				add("error-class", "failure kinds are not counterparts in Errors.SetOSType / the call's OS branch")
 			}
-		} else if lv, wv, cmp := s.values(c, lr, wr); cmp && lv != wv {
+		} else if lv, wv, cmp := s.values(pc, lr, wr); cmp && lv != wv {
 			det.Note = fmt.Sprintf("portable result: linux %q windows %q", lv, wv)
 			add("value", "returned value of a successful read-only call differs")
 		}
@@ -224,12 +242,17 @@ func (s *pairSys) Step(op int) bfs.StepResult {
 		key = "poisoned:" + c.String() + "\n" + key
 	}
 
+	outcome := c.Op + "/" + lr.Kind
+	if spelling != "" {
+		outcome = c.Op + "[" + spelling + "]/" + lr.Kind
+	}
+
 	changed := key != s.lastKey
 	s.lastKey = key
 
 	return bfs.StepResult{
 		Changed: changed, Key: key, Broken: diverged || poisoned, Rebuild: poisoned,
-		Outcome: c.Op + "/" + lr.Kind, Viols: viols,
+		Outcome: outcome, Viols: viols,
 	}
 }
 
@@ -529,13 +552,59 @@ func buildOps(kind, tier string, cfg sideCfg) []fsx.Call {
 		single(p, true)
 	}
 
+	// The spelling dimension (see "Spellings" in sides.go). General lesson: one
+	// name has several legitimate spellings on one OS type and the library's
+	// path builder produces a single one of them; every path-taking call has to
+	// be made with every spelling of its operands, from the volume root and
+	// from a directory below it (Chdir, spelled too, is in the alphabet: the
+	// spellings without volume mean something only relative to the current
+	// directory). The operands: the root itself, a name directly below it and
+	// a name two levels down (the cut between volume, root and first element and
+	// a separator inside the path), existing or not, directory or file
+	// depending on the state; thorough: every absolute operand of the alphabet
+	// and the relative ones holding a separator.
+	spAbs := []string{"/", "/a", "/b", "/a/b"}
+	if tier == "thorough" {
+		spAbs = abs
+	}
+
+	// spelled gives the operand p in spelling tag ("" when p has no other
+	// spelling under that tag: a relative path has no volume to leave out and a
+	// single name no separator).
+	spelled := func(tag, p string) string {
+		switch {
+		case strings.HasPrefix(p, "/"):
+			return tag + ":" + p
+		case strings.Contains(tag, "f") && strings.Contains(p, "/"):
+			return "f:" + p
+		}
+
+		return ""
+	}
+
+	spAll := append([]string{}, spAbs...)
+
+	for _, p := range rel {
+		if spelled("f", p) != "" {
+			spAll = append(spAll, p)
+		}
+	}
+
+	for _, tag := range absSpellings {
+		for _, p := range spAll {
+			if sp := spelled(tag, p); sp != "" && (tag != "rf" || strings.HasPrefix(p, "/")) {
+				single(sp, true)
+			}
+		}
+	}
+
 	if cfg.sysDirs {
 		// RemoveAll of the root removes the default locations, which are nested
 		// on one type only: what a later MkdirAll of one of them brings back differs
 		kept := ops[:0]
 
 		for _, c := range ops {
-			if c.Op != "RemoveAll" || (c.A != "/" && c.A != "..") {
+			if a := plain(c.A); c.Op != "RemoveAll" || (a != "/" && a != "..") {
 				kept = append(kept, c)
 			}
 		}
@@ -546,6 +615,43 @@ func buildOps(kind, tier string, cfg sideCfg) []fsx.Call {
 	for _, p := range all {
 		for _, q := range all {
 			ops = append(ops, fsx.Call{Op: "Rename", A: p, B: q}, fsx.Call{Op: "Link", A: p, B: q})
+		}
+	}
+
+	// two-path calls: every pair with at least one operand that has another
+	// spelling, both operands in the same spelling (each operand is resolved on
+	// its own: a fault in the resolution of either shows whatever the other
+	// is); thorough: also one operand spelled and the other as Join gives it
+	pairSet := append(append([]string{}, spAbs...), rel...)
+
+	for _, tag := range absSpellings {
+		for _, p := range pairSet {
+			for _, q := range pairSet {
+				sp, sq := spelled(tag, p), spelled(tag, q)
+				if tag == "rf" && !strings.HasPrefix(p, "/") && !strings.HasPrefix(q, "/") {
+					continue // two relative operands: spelled under "f" already
+				}
+
+				var variants [][2]string
+
+				switch {
+				case sp == "" && sq == "":
+					continue
+				case sp == "":
+					variants = [][2]string{{p, sq}}
+				case sq == "":
+					variants = [][2]string{{sp, q}}
+				default:
+					variants = [][2]string{{sp, sq}}
+					if tier == "thorough" {
+						variants = append(variants, [2]string{sp, q}, [2]string{p, sq})
+					}
+				}
+
+				for _, v := range variants {
+					ops = append(ops, fsx.Call{Op: "Rename", A: v[0], B: v[1]}, fsx.Call{Op: "Link", A: v[0], B: v[1]})
+				}
+			}
 		}
 	}
 
@@ -564,6 +670,20 @@ func buildOps(kind, tier string, cfg sideCfg) []fsx.Call {
 				}
 
 				ops = append(ops, fsx.Call{Op: "Symlink", A: t, B: q})
+			}
+		}
+
+		// the new name is an operand and is spelled; the target is content
+		spTargets := []string{"a", "/a"}
+		if tier == "thorough" {
+			spTargets = targets
+		}
+
+		for _, tag := range absSpellings {
+			for _, t := range spTargets {
+				for _, q := range spAbs {
+					ops = append(ops, fsx.Call{Op: "Symlink", A: t, B: spelled(tag, q)})
+				}
 			}
 		}
 	}
@@ -592,6 +712,29 @@ func buildOps(kind, tier string, cfg sideCfg) []fsx.Call {
 		ops = append(ops, fsx.Call{Op: "WalkDir", A: w})
 	}
 
+	// spelled patterns and walk roots: the results come back in the spelling of
+	// the operand and are compared in portable form
+	spGlobs := []string{"/*", "/a*", "/*/*", "/a/*", "/*/a", "*/*", "a/*"}
+	spWalks := []string{"/", "/a"}
+
+	if tier == "thorough" {
+		spGlobs, spWalks = globs, walks
+	}
+
+	for _, tag := range absSpellings {
+		for _, g := range spGlobs {
+			if sp := spelled(tag, g); sp != "" && (tag != "rf" || strings.HasPrefix(g, "/")) {
+				ops = append(ops, fsx.Call{Op: "Glob", A: sp})
+			}
+		}
+
+		for _, w := range spWalks {
+			if sp := spelled(tag, w); sp != "" && (tag != "rf" || strings.HasPrefix(w, "/")) {
+				ops = append(ops, fsx.Call{Op: "WalkDir", A: sp})
+			}
+		}
+	}
+
 	// Default locations (only in the default configuration: elsewhere the
 	// harness's /tmp is not what TempDir() names). General lesson: a call with
 	// a default ("" = the temporary directory of the current user) is a call
@@ -610,6 +753,14 @@ func buildOps(kind, tier string, cfg sideCfg) []fsx.Call {
 
 		single("$TMP", false)
 		single("$TMP/a", false)
+
+		if tier == "thorough" {
+			// the default locations in the other spellings (the helpers return one)
+			for _, tag := range absSpellings {
+				single(tag+":$TMP", false)
+				single(tag+":$TMP/a", false)
+			}
+		}
 
 		// the home directories hold the other default locations on one type
 		// only: no call that removes or replaces them
@@ -631,7 +782,19 @@ func buildOps(kind, tier string, cfg sideCfg) []fsx.Call {
 		}
 	}
 
-	return ops
+	// one operand can come out of two rules (a relative path has the same
+	// spelling under "f" and "rf"): every call once
+	seen := map[string]bool{}
+	kept := ops[:0]
+
+	for _, c := range ops {
+		if k := c.String(); !seen[k] {
+			seen[k] = true
+			kept = append(kept, c)
+		}
+	}
+
+	return kept
 }
 
 func pairFactory(tier string) func(string) bfs.System {
